@@ -152,14 +152,22 @@ def install(E):
             a = vals[0]
             w, s = INT_TYS[ty]
             n = w // 8
-            bs = []
-            for k in range(n):
-                sh = (n - 1 - k) if name == 'to_be_bytes' else k
-                if isinstance(a.t, int):
-                    bs.append(I((a.t >> (8 * sh)) & 0xff, 'u8'))
-                else:
-                    bs.append(I((zint(a.t) / (1 << (8 * sh))) % 256, 'u8'))
-            return Tup(bs)
+            if isinstance(a.t, int):
+                bs = [I((a.t >> (8 * ((n - 1 - k) if name == 'to_be_bytes' else k))) & 0xff, 'u8') for k in range(n)]
+                return Tup(bs)
+            # definitional encoding: fresh byte symbols with  x == sum b_k * 256^k  (linear; the bytes of a
+            # value are unique, so this loses nothing and spares the solver div/mod reasoning)
+            key = ('bytes', a.t.get_id())
+            if key not in E._const_cache:
+                sy = [E.int_sym('byte!%d' % next(E.nfresh), 'u8') for _ in range(n)]     # little-endian order
+                tot = 0
+                for k, b in enumerate(sy):
+                    tot = tot + b.t * (1 << (8 * k))
+                val = zint(a.t) if not s else zint(a.t) + (1 << w) * If(zint(a.t) < 0, 1, 0)
+                E.assume(val == tot)
+                E._const_cache[key] = (sy, a.t)
+            sy = E._const_cache[key][0]
+            return Tup(list(reversed(sy)) if name == 'to_be_bytes' else list(sy))
         if name in ('from_be_bytes', 'from_le_bytes'):
             a = vals[0]
             n = len(a.fs)
